@@ -562,7 +562,7 @@ func corpusSub(r *core.Run, name string, cfg core.Cfg, keep func([]byte) bool, f
 	docsSub(r, name, fmt.Sprintf("%d documents of %s under %s", len(docs), corpusRule, cfg), cfg, docs, fn)
 }
 
-const corpusRule = "the structured corpus (nesting documents, colliding heading sequences, footnote sequences, attribute blocks, replication families, leak-prone documents, printed model documents with tab/space indentation in every single-deviation spelling, small tables with every pair of cell contents, code lines under containers in every tab/space mixture, indexed families of n footnotes / reference links / table columns and rows / attributes / inline items for every n up to a bound)"
+const corpusRule = "the structured corpus (nesting documents, colliding heading sequences, footnote sequences, attribute blocks, replication families, leak-prone documents, printed model documents with tab/space indentation in every single-deviation spelling, small tables with every pair of cell contents, code lines under containers in every tab/space mixture, indexed families of n footnotes / reference links / table columns and rows / attributes / inline items for every n up to a bound, delimiters next to non-ASCII whitespace and punctuation, CR LF versions of the model, table and code documents)"
 
 // CountDocs returns indexed families whose size parameter n takes EVERY value 1..maxN: n footnotes (references then
 // definitions, and the other way round; every second one referenced twice), n reference links with n definitions, tables of
@@ -619,4 +619,24 @@ func CountDocs(maxN int) [][]byte {
 		)
 	}
 	return out
+}
+
+// UnicodeDocs returns inline documents in which emphasis delimiters, link brackets and code spans sit next to non-ASCII
+// whitespace and punctuation (the flanking rules classify by Unicode category) and East Asian text with line breaks.
+func UnicodeDocs() [][]byte {
+	nb := []string{"a", "é", "あ", "\u00a0", "\u2003", "\u3000", "«", "»", "。", "，", "“", "”", "¿", "\u200b", "\ufeff", "𝒜", "İ", "ß"}
+	var out [][]byte
+	for _, l := range nb {
+		for _, r := range nb {
+			for _, t := range []string{"x%s*%sy%s*%sz", "x%s_%sy%s_%sz", "x%s**%sy%s**%sz", "%s[%sy%s](u)%s", "%s`%sy%s`%s", "~~%s~%sy%s~~%s", "%s\n%s %s\n%s"} {
+				out = append(out, []byte(fmt.Sprintf(t, l, r, l, r)+"\n"))
+			}
+		}
+	}
+	return out
+}
+
+// CRLF returns doc with every line ending written CR LF.
+func CRLF(doc []byte) []byte {
+	return bytes.ReplaceAll(bytes.ReplaceAll(doc, []byte("\r\n"), []byte("\n")), []byte("\n"), []byte("\r\n"))
 }
